@@ -1,6 +1,7 @@
 (* C13 — Overlap resolution returns a conflict-free subset of the lints.
    This file pins the statements; it contains nothing but `exact`. *)
 Require Import Base Overlap Suggestion OverlapProofs SuggestionProofs BackToFront Tables_overlapcallers OverlapCallers.
+Require Import C13Algebra C13Callers C13CallersProofs.
 From Coq Require Import Sorting.Sorted Sorting.Permutation.
 
 (* nothing invented, nothing altered: the result is a subsequence of the key-sorted input, the sort
@@ -95,3 +96,195 @@ Example C13_nonvacuous :
              mklint (mkspan 1 2) 4; mklint (mkspan 4 7) 5; mklint (mkspan 7 7) 6; mklint (mkspan 7 9) 7] in
   Forall lwf ls /\ map lid (remove_overlaps ls) = [1; 5; 7] /\ map lid (dropped ls) = [2; 4; 0; 3; 6].
 Proof. cbv zeta. split; [repeat constructor|]. split; vm_compute; reflexivity. Qed.
+
+(* ================= phase 3: algebra of remove_overlaps and its callers ================= *)
+
+(* running it twice changes nothing (no premise: ill-formed spans included) *)
+Theorem C13_idempotent : forall ls, remove_overlaps (remove_overlaps ls) = remove_overlaps ls.
+Proof. exact ro_idempotent. Qed.
+Check C13_idempotent : forall ls, remove_overlaps (remove_overlaps ls) = remove_overlaps ls.
+Print Assumptions C13_idempotent.
+
+(* the output is sorted by the implementation's key, hence by start: list order = text order *)
+Theorem C13_sorted : forall ls, StronglySorted kle (remove_overlaps ls) /\ StronglySorted (fun a b => lstart a <= lstart b) (remove_overlaps ls).
+Proof. exact ro_sorted. Qed.
+Check C13_sorted : forall ls, StronglySorted kle (remove_overlaps ls) /\ StronglySorted (fun a b => lstart a <= lstart b) (remove_overlaps ls).
+Print Assumptions C13_sorted.
+
+(* the kept SPANS (as a sequence) do not depend on the order of the input, ties included *)
+Theorem C13_perm_spans : forall l1 l2, Permutation l1 l2 -> map lkey (remove_overlaps l1) = map lkey (remove_overlaps l2).
+Proof. exact ro_perm_spans. Qed.
+Check C13_perm_spans : forall l1 l2, Permutation l1 l2 -> map lkey (remove_overlaps l1) = map lkey (remove_overlaps l2).
+Print Assumptions C13_perm_spans.
+
+(* with pairwise distinct (start, end) pairs the kept LIST does not depend on the order of the input *)
+Theorem C13_perm_distinct : forall l1 l2, NoDup (map lkey l1) -> Permutation l1 l2 -> remove_overlaps l1 = remove_overlaps l2.
+Proof. exact ro_perm_distinct. Qed.
+Check C13_perm_distinct : forall l1 l2, NoDup (map lkey l1) -> Permutation l1 l2 -> remove_overlaps l1 = remove_overlaps l2.
+Print Assumptions C13_perm_distinct.
+
+(* ties: of the lints carrying one and the same non-empty span at most one survives, the first in input order (the stable sort decides) *)
+Theorem C13_tie_first : forall ls k, lstart k < lend k ->
+  filter (same_key k) (remove_overlaps ls) = [] \/
+  exists x rest, filter (same_key k) ls = x :: rest /\ filter (same_key k) (remove_overlaps ls) = [x].
+Proof. exact ro_tie_first. Qed.
+Check C13_tie_first : forall ls k, lstart k < lend k ->
+  filter (same_key k) (remove_overlaps ls) = [] \/
+  exists x rest, filter (same_key k) ls = x :: rest /\ filter (same_key k) (remove_overlaps ls) = [x].
+Print Assumptions C13_tie_first.
+
+(* so for ties the kept lints DO depend on the input order (same spans, other lints) *)
+Theorem C13_perm_ties_counterexample : exists l1 l2, Permutation l1 l2 /\ map lkey (remove_overlaps l1) = map lkey (remove_overlaps l2) /\
+    ~ Permutation (remove_overlaps l1) (remove_overlaps l2).
+Proof. exact ro_perm_ties_counterexample. Qed.
+Check C13_perm_ties_counterexample : exists l1 l2, Permutation l1 l2 /\ map lkey (remove_overlaps l1) = map lkey (remove_overlaps l2) /\
+    ~ Permutation (remove_overlaps l1) (remove_overlaps l2).
+Print Assumptions C13_perm_ties_counterexample.
+
+(* hence, generalised: ANY sub-list of the kept lints, fixed in list order last to first, is the simultaneous splice *)
+Theorem C13_fix_sublist : forall src sug raw ks,
+  Forall lwf raw -> Forall (in_text src) raw -> subseq ks (remove_overlaps raw) ->
+  fix_all sug src ks = Ok (splice_sim 0 src (edits sug ks)).
+Proof. exact fix_sublist. Qed.
+Check C13_fix_sublist : forall src sug raw ks,
+  Forall lwf raw -> Forall (in_text src) raw -> subseq ks (remove_overlaps raw) ->
+  fix_all sug src ks = Ok (splice_sim 0 src (edits sug ks)).
+Print Assumptions C13_fix_sublist.
+
+(* harper-wasm Linter::lint = remove_overlaps then remove_ignored: what the JS API reports *)
+Theorem C13_wasm_lint_spec : forall e ig raw, Forall lwf raw ->
+  subseq (wasm_lint e ig raw) (lsort raw) /\
+  ForallOrdPairs disjoint_pair (wasm_lint e ig raw) /\
+  StronglySorted (fun a b => lstart a <= lstart b) (wasm_lint e ig raw) /\
+  (e = false -> forall l, In l (wasm_lint e ig raw) -> ig l = false) /\
+  (forall d, In d raw -> ~ In d (wasm_lint e ig raw) ->
+     (e = false /\ ig d = true) \/
+     exists k, In k (remove_overlaps raw) /\ lstart k <= lstart d < lend k).
+Proof. exact wasm_lint_spec. Qed.
+Check C13_wasm_lint_spec : forall e ig raw, Forall lwf raw ->
+  subseq (wasm_lint e ig raw) (lsort raw) /\
+  ForallOrdPairs disjoint_pair (wasm_lint e ig raw) /\
+  StronglySorted (fun a b => lstart a <= lstart b) (wasm_lint e ig raw) /\
+  (e = false -> forall l, In l (wasm_lint e ig raw) -> ig l = false) /\
+  (forall d, In d raw -> ~ In d (wasm_lint e ig raw) ->
+     (e = false /\ ig d = true) \/
+     exists k, In k (remove_overlaps raw) /\ lstart k <= lstart d < lend k).
+Print Assumptions C13_wasm_lint_spec.
+
+(* the 'hence' sentence end to end for the JS API: one apply_suggestion per reported lint, last first *)
+Theorem C13_wasm_fix_all : forall e ig sug src raw,
+  Forall lwf raw -> Forall (in_text src) raw ->
+  fix_all sug src (wasm_lint e ig raw) = Ok (splice_sim 0 src (edits sug (wasm_lint e ig raw))).
+Proof. exact wasm_fix_all. Qed.
+Check C13_wasm_fix_all : forall e ig sug src raw,
+  Forall lwf raw -> Forall (in_text src) raw ->
+  fix_all sug src (wasm_lint e ig raw) = Ok (splice_sim 0 src (edits sug (wasm_lint e ig raw))).
+Print Assumptions C13_wasm_fix_all.
+
+(* harper-cli lint: --count counts BEFORE overlap removal; otherwise one label per kept lint (harper-cli has no apply path) *)
+Theorem C13_cli_lint_spec : forall count raw,
+  (count = true -> cli_lint count raw = CliCount (length raw)) /\
+  (count = false -> raw = [] -> cli_lint count raw = CliNoLints) /\
+  (count = false -> raw <> [] -> cli_lint count raw = CliLabels (remove_overlaps raw)).
+Proof. exact cli_lint_spec. Qed.
+Check C13_cli_lint_spec : forall count raw,
+  (count = true -> cli_lint count raw = CliCount (length raw)) /\
+  (count = false -> raw = [] -> cli_lint count raw = CliNoLints) /\
+  (count = false -> raw <> [] -> cli_lint count raw = CliLabels (remove_overlaps raw)).
+Print Assumptions C13_cli_lint_spec.
+
+(* the lints the CLI labels can all be fixed in one pass *)
+Theorem C13_cli_labels_fix_all : forall count sug src raw ks,
+  Forall lwf raw -> Forall (in_text src) raw -> cli_lint count raw = CliLabels ks ->
+  ks = remove_overlaps raw /\ ForallOrdPairs disjoint_pair ks /\
+  fix_all sug src ks = Ok (splice_sim 0 src (edits sug ks)).
+Proof. exact cli_labels_fix_all. Qed.
+Check C13_cli_labels_fix_all : forall count sug src raw ks,
+  Forall lwf raw -> Forall (in_text src) raw -> cli_lint count raw = CliLabels ks ->
+  ks = remove_overlaps raw /\ ForallOrdPairs disjoint_pair ks /\
+  fix_all sug src ks = Ok (splice_sim 0 src (edits sug ks)).
+Print Assumptions C13_cli_labels_fix_all.
+
+(* merge_linters!: concat in declaration order then remove_overlaps *)
+Theorem C13_merge_lint_spec : forall subs, Forall (Forall lwf) subs ->
+  (forall k, In k (merge_lint subs) -> exists s, In s subs /\ In k s) /\
+  ForallOrdPairs disjoint_pair (merge_lint subs) /\
+  remove_overlaps (merge_lint subs) = merge_lint subs.
+Proof. exact merge_lint_spec. Qed.
+Check C13_merge_lint_spec : forall subs, Forall (Forall lwf) subs ->
+  (forall k, In k (merge_lint subs) -> exists s, In s subs /\ In k s) /\
+  ForallOrdPairs disjoint_pair (merge_lint subs) /\
+  remove_overlaps (merge_lint subs) = merge_lint subs.
+Print Assumptions C13_merge_lint_spec.
+
+(* and its output can be fixed in one pass *)
+Theorem C13_merge_fix_all : forall sug src subs,
+  Forall (Forall lwf) subs -> Forall (Forall (in_text src)) subs ->
+  fix_all sug src (merge_lint subs) = Ok (splice_sim 0 src (edits sug (merge_lint subs))).
+Proof. exact merge_fix_all. Qed.
+Check C13_merge_fix_all : forall sug src subs,
+  Forall (Forall lwf) subs -> Forall (Forall (in_text src)) subs ->
+  fix_all sug src (merge_lint subs) = Ok (splice_sim 0 src (edits sug (merge_lint subs))).
+Print Assumptions C13_merge_fix_all.
+
+(* CurrencyPlacement::lint (three candidate generators per chunk, then remove_overlaps): whenever it returns, its lints are disjoint, a fixpoint, fixable in one pass *)
+Theorem C13_currency_fix_all : forall wrong sug src chunks ls,
+  Forall (toks_in (length src)) chunks -> currency_lint wrong chunks = Ok ls ->
+  ForallOrdPairs disjoint_pair ls /\ remove_overlaps ls = ls /\
+  fix_all sug src ls = Ok (splice_sim 0 src (edits sug ls)).
+Proof. exact currency_fix_all. Qed.
+Check C13_currency_fix_all : forall wrong sug src chunks ls,
+  Forall (toks_in (length src)) chunks -> currency_lint wrong chunks = Ok ls ->
+  ForallOrdPairs disjoint_pair ls /\ remove_overlaps ls = ls /\
+  fix_all sug src ls = Ok (splice_sim 0 src (edits sug ls)).
+Print Assumptions C13_currency_fix_all.
+
+(* and it returns (Span::new does not panic) when the tokens of each chunk are in order *)
+Theorem C13_currency_total : forall wrong chunks, Forall toks_ordered chunks -> exists ls, currency_lint wrong chunks = Ok ls.
+Proof. exact currency_lint_total. Qed.
+Check C13_currency_total : forall wrong chunks, Forall toks_ordered chunks -> exists ls, currency_lint wrong chunks = Ok ls.
+Print Assumptions C13_currency_total.
+
+(* tie of the caller models to the sources: statement order at each site and the census of callers (regenerated every run; the generator raises on a new or vanished caller and on an unknown statement) *)
+Theorem C13_callers_shape : overlap_call_skeletons = expected_skeletons /\ overlap_call_census = expected_census.
+Proof. exact overlap_call_skeletons_ok. Qed.
+Check C13_callers_shape : overlap_call_skeletons = expected_skeletons /\ overlap_call_census = expected_census.
+Print Assumptions C13_callers_shape.
+
+(* non-vacuity of the phase-3 statements; observations that are NOT violations of C13 *)
+Example C13_callers_nonvacuous :
+  let raw := [mklint (mkspan 5 8) 0; mklint (mkspan 0 3) 1; mklint (mkspan 6 7) 2; mklint (mkspan 3 4) 3] in
+  let ig l := lid l =? 3 in
+  let sug l := ReplaceWith [N.of_nat (lid l)] in
+  let src := [10; 11; 12; 13; 14; 15; 16; 17; 18]%N in
+  Forall lwf raw /\ Forall (in_text src) raw /\
+  map lid (wasm_lint false ig raw) = [1; 0] /\
+  fix_all sug src (wasm_lint false ig raw) = Ok [1; 13; 14; 0; 18]%N /\
+  cli_lint false raw = CliLabels [mklint (mkspan 0 3) 1; mklint (mkspan 3 4) 3; mklint (mkspan 5 8) 0] /\
+  merge_lint [[mklint (mkspan 5 8) 0; mklint (mkspan 0 3) 1]; [mklint (mkspan 6 7) 2]]
+    = [mklint (mkspan 0 3) 1; mklint (mkspan 5 8) 0].
+Proof. exact callers_example. Qed.
+Example C13_currency_nonvacuous :
+  let chunk := [mkctok CkNumber (mkspan 0 1); mkctok CkSpace (mkspan 1 2); mkctok CkCurrency (mkspan 2 3);
+                mkctok CkSpace (mkspan 3 4); mkctok CkNumber (mkspan 4 5)] in
+  toks_ordered chunk /\ toks_in 5 chunk /\
+  currency_cands (fun _ _ => true) [chunk] = Ok [mkspan 0 3; mkspan 2 5] /\
+  currency_lint (fun _ _ => true) [chunk] = Ok [mklint (mkspan 0 3) 0].
+Proof. exact currency_example. Qed.
+Example C13_tie_nonvacuous :
+  let ls := [mklint (mkspan 0 4) 7; mklint (mkspan 2 3) 8; mklint (mkspan 0 4) 9] in
+  NoDup (map lkey [mklint (mkspan 0 4) 7; mklint (mkspan 2 3) 8]) /\
+  filter (same_key (mklint (mkspan 0 4) 0)) ls = [mklint (mkspan 0 4) 7; mklint (mkspan 0 4) 9] /\
+  remove_overlaps ls = [mklint (mkspan 0 4) 7].
+Proof. cbv zeta. split; [repeat constructor; cbn; intuition discriminate|]. split; vm_compute; reflexivity. Qed.
+(* a lint that is not ignored vanishes because the lint it lost against is ignored afterwards *)
+Example C13_wasm_shadowed_by_ignored :
+  let raw := [mklint (mkspan 0 6) 0; mklint (mkspan 2 4) 1] in
+  let ig l := lid l =? 0 in
+  wasm_lint false ig raw = [] /\ ig (mklint (mkspan 2 4) 1) = false.
+Proof. exact wasm_shadowed_by_ignored. Qed.
+(* --count can exceed the number of labels *)
+Example C13_cli_count_counts_raw :
+  let raw := [mklint (mkspan 0 6) 0; mklint (mkspan 2 4) 1] in
+  cli_lint true raw = CliCount 2 /\ cli_lint false raw = CliLabels [mklint (mkspan 0 6) 0].
+Proof. exact cli_count_counts_raw. Qed.
